@@ -1,11 +1,13 @@
 (* Refinement of the operational model of a transaction (Model/Net.v: the propagation engine run on the
-   compiled dependency graph of a program whose wiring is fixed during the transaction) to the
-   denotational specification (Spec/Sodium.v): for every program without switch_c whose instantaneous
-   dependency graph is acyclic, the engine - whatever the order of the queue and of the dependents
-   lists - ends with every stream node holding exactly `occ` and every cell node holding exactly `upd`;
-   every update closure ran at most once and only after all of its dependencies had settled.  Then the
-   commit, histories of transactions (switch_s re-wired between them), and the deferred queue of an
-   outermost close (defer, split, post). *)
+   compiled dependency graph of a program whose static wiring is fixed during the transaction, switch_c
+   demanding its new inner cell from inside its update) to the denotational specification
+   (Spec/Sodium.v): for EVERY program (every definition kind, switch_c included) whose instantaneous
+   dependency graph - static dependencies and the demands that occur in the transaction - is acyclic, the
+   engine - whatever the order of the queue and of the dependents lists - ends with every stream node
+   holding exactly `occ` and every cell node holding exactly `upd`; every update closure ran at most once
+   and only after all of its dependencies and demanded nodes had settled.  Then the commit, histories of
+   transactions (switch_s / switch_c re-wired between them), and the deferred queue of an outermost close
+   (defer, split, post). *)
 From Coq Require Import List ZArith Bool Arith Lia Permutation.
 Import ListNotations.
 From Sodium Require Import Engine EngineScript EngineSafe EngineFuel EngineLog EngineTop Sodium Net.
@@ -64,7 +66,6 @@ Proof. induction l as [|x t IH]; [reflexivity|]. cbn [map combine]. rewrite IH. 
 (* ------------------------------------------------------------------ keys and the size of the graph *)
 Section Static.
   Variable st : state.
-  Hypothesis Hfrag : in_fragment st = true.
   Hypothesis Hnd : NoDup (map fst (defs st)).
   Hypothesis Hrefs : refs_ok st = true.
   Hypothesis Hsw : switch_targets_ok st = true.
@@ -82,12 +83,6 @@ Section Static.
     apply key_lt_nsize in E. lia.
   Qed.
 
-  Lemma def_frag k d : alookup (defs st) k = Some d -> in_frag_def d = true.
-  Proof.
-    intros E. apply alookup_in in E. unfold in_fragment in Hfrag. rewrite forallb_forall in Hfrag.
-    apply (Hfrag (k, d) E).
-  Qed.
-
   Lemma def_refs k d : alookup (defs st) k = Some d -> refs_ok_def st k d = true.
   Proof.
     intros E. apply alookup_in in E. unfold refs_ok in Hrefs. rewrite forallb_forall in Hrefs.
@@ -103,6 +98,15 @@ Section Static.
   (* the outer cell of a switch_s holds a reference to a stream *)
   Lemma switch_target k c : alookup (defs st) k = Some (DSwitchS c) ->
     exists m, cur st (F st) c = EV (VRef m) /\ is_stream_key st m = true.
+  Proof.
+    intros E. apply def_switch in E. cbn [switch_target_ok_def] in E.
+    destruct (cur st (F st) c) as [v|]; [|discriminate]. destruct v; try discriminate.
+    exists h. split; auto.
+  Qed.
+
+  (* the outer cell of a switch_c holds a reference to a cell *)
+  Lemma switch_target_c k c : alookup (defs st) k = Some (DSwitchC c) ->
+    exists i, cur st (F st) c = EV (VRef i) /\ is_cell_key st i = true.
   Proof.
     intros E. apply def_switch in E. cbn [switch_target_ok_def] in E.
     destruct (cur st (F st) c) as [v|]; [|discriminate]. destruct v; try discriminate.
@@ -152,6 +156,8 @@ Section Static.
       - (* route *) destruct (alookup (defs st) r) as [[]|]; try discriminate; try (destruct Hin; fail).
         destruct Hin as [<-|[]]; auto.
       - (* lift *) rewrite forallb_forall in R. right. left. apply R; auto.
+      - (* switch_c *) destruct (switch_target_c n c En) as (i & Ec & Ki). rewrite Ec in Hin.
+        destruct Hin as [<-|[<-|[]]]; auto.
       - (* cloop *) destruct (alookup (loops st) n); [destruct Hin as [<-|[]]; auto | destruct Hin]. }
     destruct K as [K|[K|(c & -> & Fr & ->)]].
     - left. apply stream_key_def in K as (d & E & _). exists d; exact E.
@@ -183,11 +189,11 @@ Section Static.
   Proof. unfold compile. rewrite map_length, seq_length. reflexivity. Qed.
 
   Lemma compile_get n : n < gsize st ->
-    get (compile st) n = {| deps := ndeps st n; dependents := ndependents st n;
+    get (compile st) n = {| deps := ndeps st n; dem := ndem st n; dependents := ndependents st n;
                             visited := false; done := false; changed := false; fire := None |}.
   Proof.
     intros Hn. unfold get, compile.
-    set (mkn := fun n => {| deps := ndeps st n; dependents := ndependents st n;
+    set (mkn := fun n => {| deps := ndeps st n; dem := ndem st n; dependents := ndependents st n;
                             visited := false; done := false; changed := false; fire := @None val |}).
     rewrite (nth_indep _ _ (mkn 0)) by (rewrite map_length, seq_length; exact Hn).
     rewrite map_nth, seq_nth by exact Hn. reflexivity.
@@ -197,6 +203,20 @@ Section Static.
   Proof.
     destruct (lt_dec n (gsize st)) as [Hn|Hn]; [rewrite compile_get by auto; reflexivity|].
     rewrite get_default by (rewrite compile_length; lia). rewrite ndeps_ge by (unfold gsize in Hn; lia). reflexivity.
+  Qed.
+
+  Lemma cell_keys_lt k : In k (cell_keys st) -> k < nsize st.
+  Proof.
+    unfold cell_keys. intros H. apply in_map_iff in H as ([k' d] & <- & H). apply filter_In in H as [H _].
+    cbn [fst]. eapply key_lt_nsize. apply alookup_nodup; eauto.
+  Qed.
+
+  Lemma compile_dem n d : In d (dem (get (compile st) n)) -> d < gsize st.
+  Proof.
+    destruct (lt_dec n (gsize st)) as [Hn|Hn].
+    - rewrite compile_get by auto. cbn [dem]. unfold ndem. destruct (alookup (defs st) n) as [[]|]; try (intros []; fail).
+      intros H. apply cell_keys_lt in H. unfold gsize. lia.
+    - rewrite get_default by (rewrite compile_length; lia). intros [].
   Qed.
 
   Lemma compile_dependents n : dependents (get (compile st) n) = if Nat.ltb n (gsize st) then ndependents st n else [].
@@ -212,9 +232,10 @@ Section Static.
   Lemma compile_net_graph : net_graph (compile st).
   Proof.
     split; [|split; [apply compile_length | apply compile_deps]].
-    split; [|split; [|split]].
+    split; [|split; [|split; [|split]]].
     - intros n Hn. rewrite compile_length in Hn. rewrite compile_get by auto. repeat split.
     - intros n d. rewrite compile_deps, compile_length. apply ndeps_range.
+    - intros n d. rewrite compile_length. apply compile_dem.
     - intros n m. rewrite compile_dependents, compile_length. destruct (Nat.ltb n (gsize st)); [|intros []].
       unfold ndependents. intros H. apply filter_In in H as [H _]. apply in_seq in H. lia.
     - intros n d. rewrite compile_deps. intros Hd. rewrite compile_dependents.
@@ -269,62 +290,6 @@ Section Static.
       discriminate.
   Qed.
 End Static.
-(* ------------------------------------------------------------------ the fixpoint equation of denf *)
-Lemma denf_unfold {Val} (F : rule Val) (gr : graph Val) fs : deps_in_range gr -> ranked gr -> forall n,
-  denf F (S (length gr)) gr fs n =
-  match deps (get gr n) with
-  | [] => lookup fs n
-  | ds => if existsb is_some (map (denf F (S (length gr)) gr fs) ds)
-          then F n (map (denf F (S (length gr)) gr fs) ds) else None
-  end.
-Proof.
-  intros DR Rk n. destruct (ranked_bounded gr Rk DR) as (rank & RK & RB).
-  cbn [denf]. destruct (deps (get gr n)) as [|d0 ds] eqn:Dn; auto. cbv zeta.
-  assert (E : map (denf F (length gr) gr fs) (d0 :: ds) = map (denf F (S (length gr)) gr fs) (d0 :: ds)).
-  { apply map_ext_in. intros d Hd. rewrite <- Dn in Hd. pose proof (RB d (DR n d Hd)).
-    apply (denf_stable F gr fs rank RK); lia. }
-  rewrite E. reflexivity.
-Qed.
-
-(* ------------------------------------------------------------------ heights: a rank below the number of keys *)
-Lemma height_bound {Val} (gr : graph Val) (K : list nat) (rank : nat -> nat) :
-  (forall n d, In d (deps (get gr n)) -> rank d < rank n) ->
-  (forall n d, In n K -> In d (deps (get gr n)) -> In d K) ->
-  exists h : nat -> nat,
-    (forall n d, In d (deps (get gr n)) -> h d < h n) /\ (forall n, In n K -> h n < length K).
-Proof.
-  intros RK Cl. exists (fun n => hf gr (S (rank n)) n).
-  assert (Step : forall n d, In d (deps (get gr n)) -> hf gr (S (rank d)) d < hf gr (S (rank n)) n).
-  { intros n d Hd. pose proof (RK n d Hd) as Rd.
-    rewrite (hf_stable gr rank RK (S (rank d)) (rank n) d) by lia.
-    remember (rank n) as rn eqn:Hrn. cbn [hf].
-    destruct (deps (get gr n)) as [|d0 ds] eqn:Dn; [contradiction|]. subst rn.
-    assert (hf gr (rank n) d <= list_max (map (hf gr (rank n)) (d0 :: ds))) by (apply list_max_ge; apply in_map; exact Hd).
-    lia. }
-  split; [exact Step|].
-  assert (Path : forall r n, rank n = r -> In n K ->
-            exists l, NoDup l /\ (forall x, In x l -> In x K /\ rank x <= rank n) /\
-                      length l = S (hf gr (S (rank n)) n)).
-  { induction r as [r IHr] using lt_wf_ind. intros n Hr Hn.
-    destruct (deps (get gr n)) as [|d0 ds] eqn:Dn.
-    - exists [n]. split; [constructor; [intros []|constructor]|]. split.
-      + intros x [<-|[]]. split; auto.
-      + cbn [hf]. rewrite Dn. reflexivity.
-    - assert (NEm : map (hf gr (rank n)) (d0 :: ds) <> []) by discriminate.
-      pose proof (list_max_in _ NEm) as Hin. apply in_map_iff in Hin as (d & Ed & Hd).
-      rewrite <- Dn in Hd. pose proof (RK n d Hd) as Rd. pose proof (Cl n d Hn Hd) as HdK.
-      destruct (IHr (rank d) ltac:(lia) d eq_refl HdK) as (l & NDl & El & Ll).
-      exists (n :: l). split; [|split].
-      + constructor; auto. intros Hnl. apply El in Hnl. lia.
-      + intros x [<-|Hx]; [split; auto|]. apply El in Hx. split; [apply Hx|lia].
-      + cbn [length]. rewrite Ll. f_equal.
-        rewrite (hf_stable gr rank RK (S (rank d)) (rank n) d) by lia. rewrite Ed.
-        remember (rank n) as rn eqn:Hrn. cbn [hf]. rewrite Dn. reflexivity. }
-  intros n Hn. destruct (Path (rank n) n eq_refl Hn) as (l & NDl & El & Ll).
-  assert (Inc : incl l K) by (intros x Hx; apply El in Hx; apply Hx).
-  pose proof (NoDup_incl_length NDl Inc) as Le. lia.
-Qed.
-
 (* the two places where occ and upd call each other *)
 Lemma occ_updates st inj f n c : alookup (defs st) n = Some (DUpdates c) -> occ st inj (S f) n = upd st inj f c.
 Proof. intros E. cbn [occ]. unfold def_of. rewrite E. reflexivity. Qed.
@@ -338,36 +303,142 @@ Proof. intros E. cbn [occ]. unfold def_of. rewrite E. reflexivity. Qed.
 Lemma upd_hold st inj f n a : alookup (defs st) n = Some (DHold a) -> upd st inj (S f) n = occ st inj f a.
 Proof. intros E. cbn [upd]. unfold def_of. rewrite E. reflexivity. Qed.
 
+Lemma filter_all {A} (p : A -> bool) l : (forall x, In x l -> p x = true) -> filter p l = l.
+Proof.
+  induction l as [|x t IH]; intros H; [reflexivity|]. cbn [filter].
+  rewrite (H x (or_introl eq_refl)), IH by (intros; apply H; right; auto). reflexivity.
+Qed.
+
+(* ------------------------------------------------------------------ the demands of a transaction *)
+(* the demand a switch_c makes in this transaction, according to the SPECIFICATION: the cell its outer
+   cell is updated to *)
+Definition sdem (st : state) (inj : list (nat * val)) (n : nat) : list nat :=
+  match alookup (defs st) n with
+  | Some (DSwitchC c) => match upd st inj (F st) c with EV (Some (VRef m)) => [m] | _ => [] end
+  | _ => []
+  end.
+
+(* whenever the outer cell of a switch_c is updated, its new value is a reference to an existing cell
+   (otherwise the specification of the switch_c is `Illegal`) *)
+Definition demand_ok_def (st : state) (inj : list (nat * val)) (d : def) : bool :=
+  match d with
+  | DSwitchC c => match upd st inj (F st) c with
+                  | EV (Some (VRef m)) => is_cell_key st m
+                  | EV (Some _) => false
+                  | _ => true
+                  end
+  | _ => true
+  end.
+Definition demands_ok (st : state) (inj : list (nat * val)) : bool :=
+  forallb (fun kd => demand_ok_def st inj (snd kd)) (defs st).
+
+(* no instantaneous dependency cycle among the static dependencies.  For switch_s this includes: the update
+   of the outer cell does not depend on the switch's own output within the same transaction (see
+   Model/Net.v) *)
+Definition acyclic (st : state) : Prop :=
+  exists rank : nat -> nat, forall n d, In d (ndeps st n) -> rank d < rank n.
+
+(* ... nor through the demands that occur in this transaction: the cell a switch_c switches to does not
+   depend, within the same transaction, on the switch's own output.  (The POTENTIAL demands `ndem` of a
+   switch_c are all the cells of the program; only the actual ones are constrained.) *)
+Definition acyclic_dem (st : state) (inj : list (nat * val)) : Prop :=
+  exists rank : nat -> nat, forall n d, In d (ndeps st n ++ sdem st inj n) -> rank d < rank n.
+
+Lemma acyclic_dem_acyclic st inj : acyclic_dem st inj -> acyclic st.
+Proof. intros [rank RK]. exists rank. intros n d Hd. apply RK. apply in_or_app; auto. Qed.
+
+Lemma NDm_quiet st n ins : existsb is_some ins = false -> NDm st n ins = [].
+Proof.
+  intros H. unfold NDm. destruct (alookup (defs st) n) as [[]|]; try reflexivity.
+  destruct ins as [|o ins]; [reflexivity|]. cbn [nth]. cbn [existsb] in H. apply orb_false_elim in H as [H _].
+  destruct o; [discriminate|reflexivity].
+Qed.
 
 (* ------------------------------------------------------------------ the refinement *)
 Section Refine.
   Variable st : state.
   Variable inj : list (nat * val).
-  Hypothesis Hfrag : in_fragment st = true.
   Hypothesis Hnd : NoDup (map fst (defs st)).
   Hypothesis Hrefs : refs_ok st = true.
   Hypothesis Hres : cells_resolved st = true.
   Hypothesis Hsw : switch_targets_ok st = true.
+  Hypothesis Hdem : demands_ok st inj = true.
   Variable gr : graph val.
   Hypothesis Hgr : net_graph st gr.
-  Hypothesis Hrk : ranked gr.
+  Hypothesis Hrk : exists rk : nat -> nat, forall n d, In d (ndeps st n ++ sdem st inj n) -> rk d < rk n.
   Variable fs : list (nat * val).
   Hypothesis Hfs : Permutation fs (net_sources st inj).
-  (* a rank for the dependencies that are definitions (the recursion of occ / upd) *)
+  (* a rank for the dependencies and demands that are definitions (the recursion of occ / upd), below the
+     fuel of the specification *)
   Variable rank : nat -> nat.
-  Hypothesis rank_ok : forall n d, In d (ndeps st n) -> d < nsize st -> rank d < rank n.
+  Hypothesis rank_ok : forall n d, In d (ndeps st n ++ sdem st inj n) -> d < nsize st -> rank d < rank n.
+  Hypothesis rank_F : forall n d, alookup (defs st) n = Some d -> rank n < F st.
 
-  (* what the engine leaves in node n (EngineTop.txn_run) *)
-  Definition dn (n : nat) : option val := denf (Frule st) (S (length gr)) gr fs n.
+  Lemma def_demand k d : alookup (defs st) k = Some d -> demand_ok_def st inj d = true.
+  Proof.
+    intros E. apply alookup_in in E. unfold demands_ok in Hdem. rewrite forallb_forall in Hdem.
+    apply (Hdem (k, d) E).
+  Qed.
+
+  (* the demanded node is a cell of the program *)
+  Lemma sdem_cell n m : In m (sdem st inj n) -> is_cell_key st m = true.
+  Proof.
+    unfold sdem. destruct (alookup (defs st) n) as [d|] eqn:En; [|intros []].
+    destruct d; try (intros []; fail). pose proof (def_demand n _ En) as Dk. cbn [demand_ok_def] in Dk.
+    destruct (upd st inj (F st) c) as [[v|]|]; try (intros []; fail).
+    destruct v; try (intros []; fail). intros [<-|[]]. exact Dk.
+  Qed.
+
+  Lemma sdem_range n m : In m (sdem st inj n) -> m < length gr.
+  Proof.
+    intros H. apply sdem_cell in H. apply (cell_key_lt st) in H. rewrite (proj1 (proj2 Hgr)). unfold gsize. lia.
+  Qed.
+
+  (* the demand function of the engine restricted to the demands the specification makes: a proof device
+     (the engine runs the unrestricted NDm; at the solution the two coincide, NDmf_solution below) *)
+  Definition NDmf : demand val := fun n ins =>
+    filter (fun m => existsb (Nat.eqb m) (sdem st inj n)) (NDm st n ins).
+
+  Lemma NDmf_sub n ins : incl (NDmf n ins) (sdem st inj n).
+  Proof.
+    intros m H. unfold NDmf in H. apply filter_In in H as [_ H]. apply existsb_exists in H as (x & Hx & E).
+    apply Nat.eqb_eq in E. subst x. exact Hx.
+  Qed.
+
+  Lemma NDmf_quiet n ins : existsb is_some ins = false -> NDmf n ins = [].
+  Proof. intros H. unfold NDmf. rewrite NDm_quiet by exact H. reflexivity. Qed.
+
+  Lemma NDmf_nil n d ins : alookup (defs st) n = Some d -> (forall c, d <> DSwitchC c) -> NDmf n ins = [].
+  Proof.
+    intros En Hd. unfold NDmf, NDm. rewrite En. destruct d; try reflexivity. exfalso. eapply Hd; reflexivity.
+  Qed.
+
+  (* the solution: the denotation of the graph with the restricted demand function *)
+  Definition dn (n : nat) : option val := denf (Frule st) NDmf (S (length gr)) gr fs n.
+
+  Lemma Hrk_gr : exists rk : nat -> nat, forall n d, In d (deps (get gr n) ++ sdem st inj n) -> rk d < rk n.
+  Proof. destruct Hrk as [rk RK]. exists rk. intros n d. rewrite (proj2 (proj2 Hgr)). apply RK. Qed.
 
   Lemma dn_eq n :
     dn n = match ndeps st n with
            | [] => lookup fs n
-           | ds => if existsb is_some (map dn ds) then Frule st n (map dn ds) else None
+           | ds => if existsb is_some (map dn (ds ++ NDmf n (map dn ds)))
+                   then Frule st n (map dn ds) (map dn (NDmf n (map dn ds))) else None
            end.
   Proof.
-    unfold dn. rewrite denf_unfold; [|apply Hgr | apply Hrk].
+    unfold dn. rewrite (denf_unfold (Frule st) NDmf gr fs (sdem st inj) (proj1 Hgr) Hrk_gr sdem_range NDmf_sub).
     rewrite (proj2 (proj2 Hgr)). reflexivity.
+  Qed.
+
+  (* for every node but a switch_c: nothing is demanded *)
+  Lemma dn_eq0 n d : alookup (defs st) n = Some d -> (forall c, d <> DSwitchC c) ->
+    dn n = match ndeps st n with
+           | [] => lookup fs n
+           | ds => if existsb is_some (map dn ds) then Frule st n (map dn ds) [] else None
+           end.
+  Proof.
+    intros En Hd. rewrite dn_eq. destruct (ndeps st n) as [|d0 ds]; [reflexivity|]. cbv zeta.
+    rewrite (NDmf_nil n d _ En Hd), app_nil_r. reflexivity.
   Qed.
 
   Lemma fs_nodup : NoDup (map fst fs).
@@ -414,25 +485,33 @@ Section Refine.
   Local Ltac once_dep Dn n a :=
     let H := fresh "Rk" in
     assert (H : rank a < rank n)
-      by (apply rank_ok; [rewrite Dn; cbn [In]; auto
+      by (apply rank_ok; [apply in_or_app; left; rewrite Dn; cbn [In]; auto
                          | first [apply (stream_key_lt st); assumption | apply (cell_key_lt st); assumption]]).
 
-  (* the engine's fixpoint satisfies the recursive equations of occ / upd *)
-  Lemma occ_upd_dn : forall f n d, alookup (defs st) n = Some d -> rank n < f ->
+  (* the engine's fixpoint satisfies the recursive equations of occ / upd: by induction on the rank, for
+     every fuel above the rank *)
+  Lemma occ_upd_dn : forall r n d, rank n = r -> alookup (defs st) n = Some d -> forall f, rank n < f ->
     (is_cell d = false -> occ st inj f n = EV (dn n)) /\ (is_cell d = true -> upd st inj f n = EV (dn n)).
   Proof.
-    induction f as [|f IH]; intros n d En Hf; [lia|].
+    induction r as [r IH] using lt_wf_ind. intros n d Hr En f Hf. destruct f as [|f]; [lia|].
     assert (IHs : forall a, is_stream_key st a = true -> rank a < rank n -> occ st inj f a = EV (dn a)).
-    { intros a Ka Ra. apply stream_key_def in Ka as (da & Ea & Ca). apply (IH a da Ea); [lia | exact Ca]. }
+    { intros a Ka Ra. apply stream_key_def in Ka as (da & Ea & Ca).
+      apply (IH (rank a) ltac:(lia) a da eq_refl Ea f); [lia | exact Ca]. }
     assert (IHc : forall a, is_cell_key st a = true -> rank a < rank n -> upd st inj f a = EV (dn a)).
-    { intros a Ka Ra. apply cell_key_def in Ka as (da & Ea & Ca). apply (IH a da Ea); [lia | exact Ca]. }
-    pose proof (def_refs st Hrefs n d En) as R. pose proof (def_frag st Hfrag n d En) as Fr.
+    { intros a Ka Ra. apply cell_key_def in Ka as (da & Ea & Ca).
+      apply (IH (rank a) ltac:(lia) a da eq_refl Ea f); [lia | exact Ca]. }
+    (* ... and at the fuel of the specification *)
+    assert (IHcF : forall a, is_cell_key st a = true -> rank a < rank n -> upd st inj (F st) a = EV (dn a)).
+    { intros a Ka Ra. apply cell_key_def in Ka as (da & Ea & Ca).
+      apply (IH (rank a) ltac:(lia) a da eq_refl Ea (F st)); [eapply rank_F; eauto | exact Ca]. }
+    pose proof (def_refs st Hrefs n d En) as R.
     pose proof (lookup_fs n) as Lk. unfold src_val in Lk. rewrite En in Lk.
-    pose proof (dn_eq n) as Dq.
+    pose proof (dn_eq0 n d En) as Dq.
     assert (Dn0 : ndeps st n = ddeps st n d) by (unfold ndeps; rewrite En; reflexivity).
-    destruct d; cbn [in_frag_def] in Fr; try discriminate; cbn [refs_ok_def] in R; cbn [ddeps] in Dn0;
+    destruct d; cbn [refs_ok_def] in R; cbn [ddeps] in Dn0;
       cbv beta iota in Lk;
       (split; intros Hc; cbn [is_cell] in Hc; try discriminate); clear Hc;
+      try (specialize (Dq ltac:(intros; discriminate)));
       try rewrite (occ_updates st inj f n _ En); try rewrite (upd_hold st inj f n _ En);
       try rewrite (occ_value st inj f n _ En);
       cbn [occ upd]; unfold def_of; try rewrite En; cbn [ebind].
@@ -477,7 +556,7 @@ Section Refine.
     - (* split *) rewrite Dq, Dn0, Lk. reflexivity.
     - (* router *) once_dep Dn0 n s. rewrite (IHs s R Rk).
       rewrite Dq, Dn0. unfold Frule. rewrite En. cbn [map existsb nth]. destruct (dn s); reflexivity.
-    - (* route *) destruct (alookup (defs st) r) as [dr|] eqn:Er; [|discriminate].
+    - (* route *) destruct (alookup (defs st) r0) as [dr|] eqn:Er; [|discriminate].
       destruct dr; try discriminate. cbn [ebind].
       once_dep Dn0 n s. rewrite (IHs s R Rk). cbn [ebind].
       rewrite Dq, Dn0. unfold Frule. rewrite En, Er. cbn [map existsb nth]. destruct (dn s); reflexivity.
@@ -489,7 +568,7 @@ Section Refine.
     - (* lift *)
       assert (Hcs : forall c, In c cs -> upd st inj f c = EV (dn c)).
       { intros c Hin. rewrite forallb_forall in R. apply IHc; [apply R; auto|].
-        apply rank_ok; [rewrite Dn0; exact Hin | apply (cell_key_lt st); apply R; auto]. }
+        apply rank_ok; [apply in_or_app; left; rewrite Dn0; exact Hin | apply (cell_key_lt st); apply R; auto]. }
       rewrite (emap_ev (upd st inj f) dn cs Hcs). cbn [ebind].
       rewrite Dq, Dn0. cbv zeta.
       destruct cs as [|c0 cs'].
@@ -500,26 +579,80 @@ Section Refine.
       2:{ intros c Hin. rewrite (Hcs c Hin). cbn [ebind]. destruct (dn c); [reflexivity|].
           rewrite forallb_forall in R. apply cur_cell_key. apply R; auto. }
       cbn [ebind]. unfold Frule. rewrite En, Ex. rewrite map_combine_map. reflexivity.
+    - (* switch_c: the outer cell c, the cell i held at the start of the transaction, and - demanded from
+         inside the update when c fires a reference to m - the cell m *)
+      clear Dq.
+      destruct (switch_target_c st Hsw n c En) as (i & Ec & Ki). rewrite Ec in Dn0.
+      once_dep Dn0 n c. once_dep Dn0 n i.
+      rewrite (IHc c R Rk). cbn [ebind].
+      pose proof (IHcF c R Rk) as UF.
+      assert (Sd : sdem st inj n = match dn c with Some (VRef m) => [m] | _ => [] end).
+      { unfold sdem. rewrite En, UF. reflexivity. }
+      pose proof (def_demand n _ En) as Dk. cbn [demand_ok_def] in Dk. rewrite UF in Dk.
+      rewrite (dn_eq n), Dn0. cbn [map]. unfold NDmf, NDm. rewrite En. cbn [nth]. rewrite Sd.
+      destruct (dn c) as [v|] eqn:Ev.
+      + (* the outer cell fired: it is a reference to a cell m, which is demanded *)
+        destruct v; try discriminate. rename h into m.
+        cbn [filter existsb]. rewrite Nat.eqb_refl. cbn [orb app map existsb]. rewrite Ev. cbn [is_some orb].
+        assert (Rm : rank m < rank n).
+        { apply rank_ok; [apply in_or_app; right; rewrite Sd; left; reflexivity | apply (cell_key_lt st); exact Dk]. }
+        rewrite (IHc m Dk Rm). cbn [ebind].
+        unfold Frule. rewrite En. cbn [nth].
+        destruct (dn m); [reflexivity|]. rewrite (cur_cell_key m Dk). reflexivity.
+      + (* no switch: the current inner cell's update *)
+        cbn [filter app map existsb]. rewrite Ev, Ec. cbn [ebind]. rewrite (IHc i Ki Rk0).
+        unfold Frule. rewrite En. cbn [nth is_some orb]. destruct (dn i); reflexivity.
     - (* cloop *) destruct (alookup (loops st) n) as [t|] eqn:Lp.
       + once_dep Dn0 n t. rewrite (IHc t R Rk).
         rewrite Dq, Dn0. unfold Frule. rewrite En. cbn [map existsb nth]. destruct (dn t); reflexivity.
       + rewrite Dq, Dn0, Lk. reflexivity.
   Qed.
+
+  Lemma refines_key n d : alookup (defs st) n = Some d ->
+    (is_cell d = false -> occ st inj (F st) n = EV (dn n)) /\ (is_cell d = true -> upd st inj (F st) n = EV (dn n)).
+  Proof. intros En. apply (occ_upd_dn (rank n) n d eq_refl En (F st)). eapply rank_F; eauto. Qed.
+
+  (* at the solution the engine's demand is the specification's demand ... *)
+  Lemma NDm_solution n : NDm st n (map dn (ndeps st n)) = sdem st inj n.
+  Proof.
+    unfold NDm, sdem. destruct (alookup (defs st) n) as [d|] eqn:En; [|reflexivity].
+    destruct d; try reflexivity.
+    pose proof (def_refs st Hrefs n _ En) as R. cbn [refs_ok_def] in R.
+    apply cell_key_def in R as (dc & Ec & Cc).
+    rewrite (proj2 (refines_key c dc Ec) Cc).
+    assert (E0 : nth 0 (map dn (ndeps st n)) None = dn c).
+    { unfold ndeps. rewrite En. cbn [ddeps]. destruct (cur st (F st) c) as [[]|]; reflexivity. }
+    rewrite E0. reflexivity.
+  Qed.
+
+  (* ... so that the restriction of the demand function is immaterial *)
+  Lemma NDmf_solution n : NDmf n (map dn (ndeps st n)) = NDm st n (map dn (ndeps st n)).
+  Proof.
+    unfold NDmf. rewrite NDm_solution. apply filter_all. intros m Hm.
+    apply existsb_exists. exists m. split; [exact Hm | apply Nat.eqb_refl].
+  Qed.
+
+  (* dn is a solution of the equations of the engine that Model/Net.v runs *)
+  Lemma dn_solution n : ndeps st n <> [] ->
+    dn n = (if existsb is_some (map dn (ndeps st n ++ NDm st n (map dn (ndeps st n))))
+            then Frule st n (map dn (ndeps st n)) (map dn (NDm st n (map dn (ndeps st n)))) else None).
+  Proof.
+    intros NE. rewrite dn_eq at 1. rewrite <- NDmf_solution. destruct (ndeps st n); [contradiction|reflexivity].
+  Qed.
 End Refine.
 
 (* ------------------------------------------------------------------ the headline theorem *)
+(* the nodes that node n demanded, read off the final firings *)
+Definition ndemanded (st : state) (fires : list (option val)) (n : nat) : list nat :=
+  NDm st n (map (fire_of fires) (ndeps st n)).
+
 (* the update log (oldest first): every node is updated at most once, exactly the nodes one of whose
-   dependencies fired, and never before one of its dependencies *)
+   dependencies or demanded nodes fired, and never before one of these *)
 Definition updates_once_after_deps (st : state) (fires : list (option val)) (lg : list nat) : Prop :=
   NoDup lg /\
   (forall n, In n lg <-> (n < gsize st /\ ndeps st n <> [] /\
-                          exists d, In d (ndeps st n) /\ fire_of fires d <> None)) /\
-  (forall l1 n l2, lg = l1 ++ n :: l2 -> forall d, In d (ndeps st n) -> ~ In d l2).
-
-(* no instantaneous dependency cycle.  For switch_s this includes: the update of the outer cell does not
-   depend on the switch's own output within the same transaction (see Model/Net.v) *)
-Definition acyclic (st : state) : Prop :=
-  exists rank : nat -> nat, forall n d, In d (ndeps st n) -> rank d < rank n.
+                          exists d, In d (ndeps st n ++ ndemanded st fires n) /\ fire_of fires d <> None)) /\
+  (forall l1 n l2, lg = l1 ++ n :: l2 -> forall d, In d (ndeps st n ++ ndemanded st fires n) -> ~ In d l2).
 
 Lemma nth_map_seq {A} (f : nat -> A) N n d : n < N -> nth n (map f (seq 0 N)) d = f n.
 Proof.
@@ -527,23 +660,10 @@ Proof.
   rewrite map_nth, seq_nth by exact H. reflexivity.
 Qed.
 
-(* the dependencies among definitions only (without the sparks): the recursion of occ / upd.  A proof
-   device to bound the fuel the specification needs by the number of definitions. *)
-Definition real_graph (st : state) : graph val :=
-  map (fun n => mknode (filter (fun d => Nat.ltb d (nsize st)) (ndeps st n))) (seq 0 (nsize st)).
-
-Lemma real_graph_deps st n :
-  deps (get (real_graph st) n) = filter (fun d => Nat.ltb d (nsize st)) (ndeps st n).
-Proof.
-  destruct (lt_dec n (nsize st)) as [Hn|Hn].
-  - unfold get, real_graph. rewrite nth_map_seq by exact Hn. reflexivity.
-  - rewrite get_default by (unfold real_graph; rewrite map_length, seq_length; lia).
-    rewrite ndeps_ge by lia. reflexivity.
-Qed.
-
 Theorem net_refines st inj gr fs :
-  in_fragment st = true -> NoDup (map fst (defs st)) -> refs_ok st = true -> cells_resolved st = true ->
-  switch_targets_ok st = true -> acyclic st -> net_graph st gr -> Permutation fs (net_sources st inj) ->
+  NoDup (map fst (defs st)) -> refs_ok st = true -> cells_resolved st = true ->
+  switch_targets_ok st = true -> demands_ok st inj = true -> acyclic_dem st inj ->
+  net_graph st gr -> Permutation fs (net_sources st inj) ->
   exists fires lg,
     net_run st gr fs = Some (fires, lg) /\
     length fires = gsize st /\
@@ -553,52 +673,73 @@ Theorem net_refines st inj gr fs :
                  upd st inj (F st) c = EV (fire_of fires c)) /\
     updates_once_after_deps st fires lg.
 Proof.
-  intros Hfrag Hnd Hrefs Hres Hsw [rank RK] Hgr Hfs.
+  intros Hnd Hrefs Hres Hsw Hdem Hac Hgr Hfs. pose proof Hac as [rank RK].
   pose proof Hgr as (Hwf & HL & HD).
-  assert (RKg : forall n d, In d (deps (get gr n)) -> rank d < rank n) by (intros n d; rewrite HD; apply RK).
-  assert (Rg : ranked gr) by (exists rank; exact RKg).
-  destruct (ranked_bounded gr Rg (proj1 (proj2 Hwf))) as (rb & RKb & RBb).
-  pose proof (fs_sources st inj gr Hgr fs Hfs) as Hsrc.
-  destruct (txn_run (Frule st) gr fs rb Hwf RKb RBb Hsrc) as (s' & E & _ & Fi & NDl & Iff & St).
-  (* a rank below the number of definitions: the fuel of the specification is enough *)
-  destruct (height_bound (real_graph st) (map fst (defs st)) rank) as (h & Hh & Hb).
-  { intros n d. rewrite real_graph_deps. intros Hd. apply filter_In in Hd as [Hd _]. apply RK; exact Hd. }
-  { intros n d _. rewrite real_graph_deps. intros Hd. apply filter_In in Hd as [Hd Lt]. apply Nat.ltb_lt in Lt.
-    destruct (ndeps_real st Hrefs Hsw n d Hd Lt) as [dd Ed].
-    apply alookup_in in Ed. apply in_map_iff. exists (d, dd); auto. }
-  assert (Hh' : forall n d, In d (ndeps st n) -> d < nsize st -> h d < h n).
-  { intros n d Hd Lt. apply Hh. rewrite real_graph_deps. apply filter_In. split; [exact Hd|]. apply Nat.ltb_lt; exact Lt. }
+  (* the edges among definitions only (without the sparks): the recursion of occ / upd.  A rank below
+     the number of definitions: the fuel of the specification is enough *)
+  pose (E := fun n => filter (fun d => Nat.ltb d (nsize st)) (ndeps st n ++ sdem st inj n)).
+  destruct (height_bound E (map fst (defs st)) rank) as (h & Hh & Hb).
+  { intros n d Hd. apply filter_In in Hd as [Hd _]. apply RK; exact Hd. }
+  { intros n d _ Hd. apply filter_In in Hd as [Hd Lt]. apply Nat.ltb_lt in Lt.
+    apply in_app_or in Hd as [Hd|Hd].
+    - destruct (ndeps_real st Hrefs Hsw n d Hd Lt) as [dd Ed].
+      apply alookup_in in Ed. apply in_map_iff. exists (d, dd); auto.
+    - apply (sdem_cell st inj Hdem) in Hd. apply cell_key_def in Hd as (dd & Ed & _).
+      apply alookup_in in Ed. apply in_map_iff. exists (d, dd); auto. }
+  assert (Hh' : forall n d, In d (ndeps st n ++ sdem st inj n) -> d < nsize st -> h d < h n).
+  { intros n d Hd Lt. apply Hh. apply filter_In. split; [exact Hd|]. apply Nat.ltb_lt; exact Lt. }
   assert (HF : forall n d, alookup (defs st) n = Some d -> h n < F st).
   { intros n d En. apply alookup_in in En.
     assert (In n (map fst (defs st))) by (apply in_map_iff; exists (n, d); auto).
     pose proof (Hb n H). rewrite map_length in H0. unfold F. lia. }
-  assert (Fo : forall n, n < gsize st -> fire_of (map fire (g s')) n = dn st gr fs n).
-  { intros n Hn. unfold fire_of, dn. rewrite Fi. rewrite <- HL in Hn. apply nth_map_seq; exact Hn. }
+  pose (DN := dn st inj gr fs).
+  pose proof (fs_sources st inj gr Hgr fs Hfs) as Hsrc.
+  assert (RKg : forall n d, In d (deps (get gr n) ++ sdem st inj n) -> rank d < rank n) by (intros n d; rewrite HD; apply RK).
+  assert (DemR : forall n d, In d (sdem st inj n) -> d < length gr).
+  { intros n d. apply (sdem_range st inj Hdem gr Hgr). }
+  destruct (txn_run (Frule st) (NDm st) gr fs (sdem st inj) rank DN Hwf RKg DemR Hsrc) as (s' & Er & _ & Fi & NDl & Iff & St).
+  { (* sources *) intros n Hn Dn. unfold DN. rewrite (dn_eq st inj Hdem gr Hgr Hac fs), <- HD, Dn. reflexivity. }
+  { (* the equations *) intros n Hn NE. rewrite HD in *. unfold DN.
+    apply (dn_solution st inj Hrefs Hres Hsw Hdem gr Hgr Hac fs Hfs h Hh' HF n NE). }
+  { (* the demands at the solution are those of the specification *)
+    intros n Hn. rewrite HD. unfold DN.
+    rewrite (NDm_solution st inj Hrefs Hres Hsw Hdem gr Hgr Hac fs Hfs h Hh' HF n). apply incl_refl. }
+  { apply NDm_quiet. }
+  assert (Fo : forall n, n < gsize st -> fire_of (map fire (g s')) n = DN n).
+  { intros n Hn. unfold fire_of. rewrite Fi. rewrite <- HL in Hn. apply nth_map_seq; exact Hn. }
   assert (Klt : forall n d, alookup (defs st) n = Some d -> n < gsize st).
   { intros n d En. apply key_lt_nsize in En. unfold gsize. lia. }
+  assert (Edem : forall n, ndemanded st (map fire (g s')) n = demanded (NDm st) gr DN n).
+  { intros n. unfold ndemanded, demanded, Dof. rewrite HD. f_equal. apply map_ext_in. intros d Hd. apply Fo.
+    eapply ndeps_range; eauto. }
+  assert (InpR : forall n d, In d (ndeps st n ++ demanded (NDm st) gr DN n) -> d < gsize st).
+  { intros n d Hd. apply in_app_or in Hd as [Hd|Hd]; [eapply ndeps_range; eauto|].
+    unfold demanded, Dof in Hd. rewrite HD in Hd. unfold DN in Hd.
+    rewrite (NDm_solution st inj Hrefs Hres Hsw Hdem gr Hgr Hac fs Hfs h Hh' HF n) in Hd.
+    rewrite <- HL. eapply DemR; eauto. }
   exists (map fire (g s')), (rev (log s')).
   split; [|split; [|split; [|split]]].
-  - unfold net_run. unfold init_st, fire_all in E. rewrite E. reflexivity.
+  - unfold net_run. unfold init_st, fire_all in Er. rewrite Er. reflexivity.
   - rewrite Fi, map_length, seq_length. exact HL.
   - intros s d Es Cs. rewrite Fo by (eapply Klt; eauto).
-    apply (occ_upd_dn st inj Hfrag Hrefs Hres Hsw gr Hgr Rg fs Hfs h Hh' (F st) s d Es (HF s d Es)); exact Cs.
+    apply (refines_key st inj Hrefs Hres Hsw Hdem gr Hgr Hac fs Hfs h Hh' HF s d Es); exact Cs.
   - intros c d Ec Cc. rewrite Fo by (eapply Klt; eauto).
-    apply (occ_upd_dn st inj Hfrag Hrefs Hres Hsw gr Hgr Rg fs Hfs h Hh' (F st) c d Ec (HF c d Ec)); exact Cc.
+    apply (refines_key st inj Hrefs Hres Hsw Hdem gr Hgr Hac fs Hfs h Hh' HF c d Ec); exact Cc.
   - split; [exact NDl|]. split.
-    + intros n. rewrite Iff. unfold Dof. rewrite HD.
+    + intros n. rewrite Iff, Edem. unfold Dof. rewrite HD.
       split; intros (Hn & NE & d & Hd & Nd).
       * rewrite HL in Hn. split; [exact Hn|split; [exact NE|exists d; split; [exact Hd|]]].
-        rewrite Fo by (eapply ndeps_range; eauto). exact Nd.
+        rewrite Fo by (eapply InpR; eauto). exact Nd.
       * split; [rewrite HL; exact Hn|split; [exact NE|exists d; split; [exact Hd|]]].
-        rewrite Fo in Nd by (eapply ndeps_range; eauto). exact Nd.
-    + intros l1 n l2 El d Hd. apply (St l1 n l2 El d). unfold Dof. rewrite HD. exact Hd.
+        rewrite Fo in Nd by (eapply InpR; eauto). exact Nd.
+    + intros l1 n l2 El d Hd. apply (St l1 n l2 El d). rewrite Edem in Hd. unfold Dof. rewrite HD. exact Hd.
 Qed.
 Print Assumptions net_refines.
 
 (* the same for the graph built by `compile` and the sources queued in node order *)
 Corollary net_txn_refines st inj :
-  in_fragment st = true -> NoDup (map fst (defs st)) -> refs_ok st = true -> cells_resolved st = true ->
-  switch_targets_ok st = true -> acyclic st ->
+  NoDup (map fst (defs st)) -> refs_ok st = true -> cells_resolved st = true ->
+  switch_targets_ok st = true -> demands_ok st inj = true -> acyclic_dem st inj ->
   exists fires lg,
     net_txn st inj = Some (fires, lg) /\
     length fires = gsize st /\
@@ -608,7 +749,7 @@ Corollary net_txn_refines st inj :
                  upd st inj (F st) c = EV (fire_of fires c)) /\
     updates_once_after_deps st fires lg.
 Proof.
-  intros Hfrag Hnd Hrefs Hres Hsw Hac. unfold net_txn.
+  intros Hnd Hrefs Hres Hsw Hdem Hac. unfold net_txn.
   apply net_refines; auto. apply compile_net_graph; auto.
 Qed.
 Print Assumptions net_txn_refines.
@@ -616,17 +757,17 @@ Print Assumptions net_txn_refines.
 (* glitch freedom / order independence: any two graphs for the program (any registration order of the
    dependents) and any two queue orders of the sources end with the same firings *)
 Corollary net_order_independent st inj gr1 fs1 gr2 fs2 :
-  in_fragment st = true -> NoDup (map fst (defs st)) -> refs_ok st = true -> cells_resolved st = true ->
-  switch_targets_ok st = true -> acyclic st ->
+  NoDup (map fst (defs st)) -> refs_ok st = true -> cells_resolved st = true ->
+  switch_targets_ok st = true -> demands_ok st inj = true -> acyclic_dem st inj ->
   net_graph st gr1 -> Permutation fs1 (net_sources st inj) ->
   net_graph st gr2 -> Permutation fs2 (net_sources st inj) ->
   exists fires1 lg1 fires2 lg2,
     net_run st gr1 fs1 = Some (fires1, lg1) /\ net_run st gr2 fs2 = Some (fires2, lg2) /\
     forall n d, alookup (defs st) n = Some d -> fire_of fires1 n = fire_of fires2 n.
 Proof.
-  intros Hfrag Hnd Hrefs Hres Hsw Hac G1 P1 G2 P2.
-  destruct (net_refines st inj gr1 fs1 Hfrag Hnd Hrefs Hres Hsw Hac G1 P1) as (f1 & l1 & E1 & _ & O1 & U1 & _).
-  destruct (net_refines st inj gr2 fs2 Hfrag Hnd Hrefs Hres Hsw Hac G2 P2) as (f2 & l2 & E2 & _ & O2 & U2 & _).
+  intros Hnd Hrefs Hres Hsw Hdem Hac G1 P1 G2 P2.
+  destruct (net_refines st inj gr1 fs1 Hnd Hrefs Hres Hsw Hdem Hac G1 P1) as (f1 & l1 & E1 & _ & O1 & U1 & _).
+  destruct (net_refines st inj gr2 fs2 Hnd Hrefs Hres Hsw Hdem Hac G2 P2) as (f2 & l2 & E2 & _ & O2 & U2 & _).
   exists f1, l1, f2, l2. split; [exact E1|]. split; [exact E2|].
   intros n d En. destruct (is_cell d) eqn:Cd.
   - pose proof (U1 n d En Cd) as A. rewrite (U2 n d En Cd) in A. injection A as A. auto.
@@ -642,15 +783,16 @@ Proof. intros E. unfold F. cbn [cur]. rewrite E. reflexivity. Qed.
    firings + the commit of the fired cell updates and once flags + the work posted by the listeners of
    defer and split *)
 Theorem close_txn_refines st inj posts fires lg :
-  in_fragment st = true -> NoDup (map fst (defs st)) -> refs_ok st = true -> cells_resolved st = true ->
-  switch_targets_ok st = true -> listeners_ok st = true -> lazies_val st = true -> acyclic st ->
+  NoDup (map fst (defs st)) -> refs_ok st = true -> cells_resolved st = true ->
+  switch_targets_ok st = true -> demands_ok st inj = true -> listeners_ok st = true -> lazies_val st = true ->
+  acyclic_dem st inj ->
   net_txn st inj = Some (fires, lg) ->
   close_txn st inj posts =
   EV (mkRes (net_commit st fires) (net_calls st fires)
             (net_deferred st fires ++ map (fun p => DPost (fst p) (snd p)) posts)).
 Proof.
-  intros Hfrag Hnd Hrefs Hres Hsw Hls Hlz Hac E.
-  destruct (net_txn_refines st inj Hfrag Hnd Hrefs Hres Hsw Hac) as (fires' & lg' & E' & _ & Ho & Hu & _).
+  intros Hnd Hrefs Hres Hsw Hdem Hls Hlz Hac E.
+  destruct (net_txn_refines st inj Hnd Hrefs Hres Hsw Hdem Hac) as (fires' & lg' & E' & _ & Ho & Hu & _).
   rewrite E in E'. injection E' as <- <-.
   unfold close_txn.
   (* listeners *)
@@ -708,13 +850,14 @@ Qed.
 Print Assumptions close_txn_refines.
 
 Corollary listeners_refine st inj fires lg r :
-  in_fragment st = true -> NoDup (map fst (defs st)) -> refs_ok st = true -> cells_resolved st = true ->
-  switch_targets_ok st = true -> listeners_ok st = true -> lazies_val st = true -> acyclic st ->
+  NoDup (map fst (defs st)) -> refs_ok st = true -> cells_resolved st = true ->
+  switch_targets_ok st = true -> demands_ok st inj = true -> listeners_ok st = true -> lazies_val st = true ->
+  acyclic_dem st inj ->
   net_txn st inj = Some (fires, lg) -> close_txn st inj [] = EV r ->
   r_obs r = net_calls st fires /\ r_state r = net_commit st fires /\ r_deferred r = net_deferred st fires.
 Proof.
-  intros Hfrag Hnd Hrefs Hres Hsw Hls Hlz Hac E C.
-  rewrite (close_txn_refines st inj [] fires lg Hfrag Hnd Hrefs Hres Hsw Hls Hlz Hac E) in C.
+  intros Hnd Hrefs Hres Hsw Hdem Hls Hlz Hac E C.
+  rewrite (close_txn_refines st inj [] fires lg Hnd Hrefs Hres Hsw Hdem Hls Hlz Hac E) in C.
   injection C as <-. cbn [r_obs r_state r_deferred map]. rewrite app_nil_r. auto.
 Qed.
 Print Assumptions listeners_refine.
@@ -722,13 +865,17 @@ Print Assumptions listeners_refine.
 (* ------------------------------------------------------------------ the invariants *)
 (* the part of the hypotheses that does not depend on the current wiring; it holds again after a commit *)
 Definition static_ok (st : state) : Prop :=
-  in_fragment st = true /\ NoDup (map fst (defs st)) /\ refs_ok st = true /\ cells_resolved st = true /\
+  NoDup (map fst (defs st)) /\ refs_ok st = true /\ cells_resolved st = true /\
   listeners_ok st = true /\ lazies_val st = true.
 
-(* the part that depends on the values the outer cells of the switches hold: they refer to streams, and
-   the graph wired accordingly is acyclic.  A commit that re-wires a switch can break either, so the
-   history theorems assume it of every state in which a transaction is run. *)
-Definition wired_ok (st : state) : Prop := switch_targets_ok st = true /\ acyclic st.
+(* the part that depends on the values the outer cells of the switches hold and on what the transaction
+   sends: the outer cells refer to streams (switch_s) / cells (switch_c), an outer cell of a switch_c that
+   is updated is updated to a reference to a cell, and the graph wired accordingly - static dependencies
+   and the demands of this transaction - is acyclic.  A commit that re-wires a switch can break either, so
+   the history theorems assume it of every state in which a transaction is run, for what that transaction
+   sends. *)
+Definition wired_ok (st : state) (inj : list (nat * val)) : Prop :=
+  switch_targets_ok st = true /\ demands_ok st inj = true /\ acyclic_dem st inj.
 
 Lemma concat_map_singleton {A B} (f : A -> list B) (h : A -> B) l :
   (forall x, In x l -> f x = [h x]) -> concat (map f l) = map h l.
@@ -750,8 +897,8 @@ Proof. unfold amem. apply existsb_app. Qed.
 
 Lemma static_ok_commit st fires : static_ok st -> static_ok (net_commit st fires).
 Proof.
-  intros (Hfrag & Hnd & Hrefs & Hres & Hls & Hlz).
-  split; [exact Hfrag|]. split; [exact Hnd|]. split; [exact Hrefs|].
+  intros (Hnd & Hrefs & Hres & Hls & Hlz).
+  split; [exact Hnd|]. split; [exact Hrefs|].
   split; [|split; [exact Hls|exact Hlz]].
   unfold cells_resolved. apply forallb_forall. intros [k d] Hin. cbn [fst snd].
   change (defs (net_commit st fires)) with (defs st) in Hin.
@@ -784,10 +931,29 @@ Proof.
   rewrite Ev. reflexivity.
 Qed.
 
-(* programs without switch_s: the wiring never changes (once nodes and value sparks only drop
-   dependencies), so the wiring invariant is preserved by every commit *)
+(* programs without switch_s and switch_c: the wiring never changes (once nodes and value sparks only drop
+   dependencies) and nothing is demanded, so the wiring invariant is preserved by every commit *)
 Definition no_switch (st : state) : bool :=
-  forallb (fun kd : nat * def => match snd kd with DSwitchS _ => false | _ => true end) (defs st).
+  forallb (fun kd : nat * def => match snd kd with DSwitchS _ | DSwitchC _ => false | _ => true end) (defs st).
+
+Lemma no_switch_def st n d : no_switch st = true -> alookup (defs st) n = Some d ->
+  (forall c, d <> DSwitchS c) /\ (forall c, d <> DSwitchC c).
+Proof.
+  intros Hns En. apply alookup_in in En. unfold no_switch in Hns. rewrite forallb_forall in Hns.
+  specialize (Hns _ En). cbn [snd] in Hns. split; intros c ->; discriminate.
+Qed.
+
+Lemma no_switch_sdem st inj n : no_switch st = true -> sdem st inj n = [].
+Proof.
+  intros Hns. unfold sdem. destruct (alookup (defs st) n) as [d|] eqn:En; [|reflexivity].
+  destruct d; try reflexivity. exfalso. eapply (proj2 (no_switch_def st n _ Hns En)); reflexivity.
+Qed.
+
+Lemma no_switch_demands st inj : no_switch st = true -> demands_ok st inj = true.
+Proof.
+  unfold no_switch, demands_ok. rewrite !forallb_forall. intros H kd Hin. specialize (H kd Hin).
+  destruct (snd kd); try reflexivity. discriminate.
+Qed.
 
 Lemma ndeps_commit_incl st fires n d : no_switch st = true ->
   In d (ndeps (net_commit st fires) n) -> In d (ndeps st n).
@@ -810,50 +976,71 @@ Proof.
   - (* switch_s *)
     apply alookup_in in En. unfold no_switch in Hns. rewrite forallb_forall in Hns.
     specialize (Hns _ En). discriminate.
+  - (* switch_c *)
+    apply alookup_in in En. unfold no_switch in Hns. rewrite forallb_forall in Hns.
+    specialize (Hns _ En). discriminate.
 Qed.
 
 Lemma no_switch_targets st : no_switch st = true -> switch_targets_ok st = true.
 Proof.
   unfold no_switch, switch_targets_ok. rewrite !forallb_forall. intros H kd Hin. specialize (H kd Hin).
-  destruct (snd kd); try reflexivity. discriminate.
+  destruct (snd kd); try reflexivity; discriminate.
 Qed.
 
-Lemma wired_ok_commit_no_switch st fires : no_switch st = true -> wired_ok st -> wired_ok (net_commit st fires).
+(* without switches: the static acyclicity is all there is to the wiring invariant *)
+Lemma wired_ok_no_switch st inj : no_switch st = true -> acyclic st -> wired_ok st inj.
 Proof.
-  intros Hns [_ [rank RK]]. split; [apply no_switch_targets; exact Hns|].
-  exists rank. intros n d Hd. apply RK. eapply ndeps_commit_incl; eauto.
+  intros Hns [rank RK]. split; [apply no_switch_targets; exact Hns|]. split; [apply no_switch_demands; exact Hns|].
+  exists rank. intros n d Hd. rewrite (no_switch_sdem st inj n Hns), app_nil_r in Hd. apply RK; exact Hd.
+Qed.
+
+Lemma acyclic_commit_no_switch st fires : no_switch st = true -> acyclic st -> acyclic (net_commit st fires).
+Proof. intros Hns [rank RK]. exists rank. intros n d Hd. apply RK. eapply ndeps_commit_incl; eauto. Qed.
+
+Lemma wired_ok_commit_no_switch st fires inj inj' :
+  no_switch st = true -> wired_ok st inj -> wired_ok (net_commit st fires) inj'.
+Proof.
+  intros Hns (_ & _ & Hac). apply wired_ok_no_switch; [exact Hns|].
+  apply acyclic_commit_no_switch; [exact Hns|]. eapply acyclic_dem_acyclic; eauto.
 Qed.
 
 (* a checkable witness of acyclicity *)
-Definition rank_okb (st : state) (rank : nat -> nat) : bool :=
-  forallb (fun kd : nat * def => forallb (fun d => Nat.ltb (rank d) (rank (fst kd))) (ndeps st (fst kd))) (defs st).
+Definition rank_okb (st : state) (inj : list (nat * val)) (rank : nat -> nat) : bool :=
+  forallb (fun kd : nat * def => forallb (fun d => Nat.ltb (rank d) (rank (fst kd)))
+                                         (ndeps st (fst kd) ++ sdem st inj (fst kd))) (defs st).
 
-Lemma rank_okb_acyclic st rank : rank_okb st rank = true -> acyclic st.
+Lemma rank_okb_acyclic st inj rank : rank_okb st inj rank = true -> acyclic_dem st inj.
 Proof.
   intros H. exists rank. intros n d Hd. unfold rank_okb in H. rewrite forallb_forall in H.
-  destruct (ndeps_self_defined st n) as [dd En]; [intros Z; rewrite Z in Hd; destruct Hd|].
+  assert (Df : exists dd, alookup (defs st) n = Some dd).
+  { unfold ndeps, sdem in Hd. destruct (alookup (defs st) n) as [dd|]; [eauto | destruct Hd]. }
+  destruct Df as [dd En].
   apply alookup_in in En. specialize (H _ En). cbn [fst] in H. rewrite forallb_forall in H.
   apply Nat.ltb_lt. apply H. exact Hd.
 Qed.
 
-Definition wired_okb (rank : nat -> nat) (st : state) : bool := switch_targets_ok st && rank_okb st rank.
-Lemma wired_okb_ok rank st : wired_okb rank st = true -> wired_ok st.
-Proof. intros H. apply andb_prop in H as [A B]. split; [exact A | eapply rank_okb_acyclic; eauto]. Qed.
+Definition wired_okb (rank : nat -> nat) (st : state) (inj : list (nat * val)) : bool :=
+  switch_targets_ok st && demands_ok st inj && rank_okb st inj rank.
+Lemma wired_okb_ok rank st inj : wired_okb rank st inj = true -> wired_ok st inj.
+Proof.
+  intros H. apply andb_prop in H as [H B]. apply andb_prop in H as [A C].
+  split; [exact A | split; [exact C | eapply rank_okb_acyclic; eauto]].
+Qed.
 
 (* ------------------------------------------------------------------ histories *)
 (* W holds of every state in which a transaction of the history is run *)
-Fixpoint history_all (W : state -> Prop) (st : state) (txns : list (list (nat * val))) : Prop :=
+Fixpoint history_all (W : state -> list (nat * val) -> Prop) (st : state) (txns : list (list (nat * val))) : Prop :=
   match txns with
   | [] => True
   | inj :: rest =>
-    W st /\ match net_txn st inj with
+    W st inj /\ match net_txn st inj with
             | Some (fires, _) => history_all W (net_commit st fires) rest
             | None => True
             end
   end.
 Definition history_ok : state -> list (list (nat * val)) -> Prop := history_all wired_ok.
 
-Lemma history_all_impl (W W' : state -> Prop) : (forall st, W st -> W' st) ->
+Lemma history_all_impl (W W' : state -> list (nat * val) -> Prop) : (forall st inj, W st inj -> W' st inj) ->
   forall txns st, history_all W st txns -> history_all W' st txns.
 Proof.
   intros Imp. induction txns as [|inj rest IH]; intros st H; [exact Logic.I|].
@@ -862,8 +1049,8 @@ Proof.
 Qed.
 
 (* an invariant of the commits is enough *)
-Lemma history_all_inv (W P : state -> Prop) :
-  (forall st, P st -> W st) ->
+Lemma history_all_inv (W : state -> list (nat * val) -> Prop) (P : state -> Prop) :
+  (forall st inj, P st -> W st inj) ->
   (forall st inj fires lg, P st -> net_txn st inj = Some (fires, lg) -> P (net_commit st fires)) ->
   forall txns st, P st -> history_all W st txns.
 Proof.
@@ -880,14 +1067,14 @@ Theorem net_history_refines : forall txns st, static_ok st -> history_ok st txns
 Proof.
   induction txns as [|inj rest IH]; intros st Hok Hh.
   - exists []. split; reflexivity.
-  - pose proof Hok as (Hfrag & Hnd & Hrefs & Hres & Hls & Hlz).
-    cbn [history_ok history_all] in Hh. destruct Hh as [[Hsw Hac] Hh].
-    destruct (net_txn_refines st inj Hfrag Hnd Hrefs Hres Hsw Hac) as (fires & lg & E & _).
+  - pose proof Hok as (Hnd & Hrefs & Hres & Hls & Hlz).
+    cbn [history_ok history_all] in Hh. destruct Hh as [(Hsw & Hdem & Hac) Hh].
+    destruct (net_txn_refines st inj Hnd Hrefs Hres Hsw Hdem Hac) as (fires & lg & E & _).
     rewrite E in Hh.
     destruct (IH (net_commit st fires) (static_ok_commit st fires Hok) Hh) as (os & E1 & E2).
     exists (net_calls st fires :: os). cbn [net_history spec_history].
     rewrite E, E1. split; [reflexivity|].
-    rewrite (close_txn_refines st inj [] fires lg Hfrag Hnd Hrefs Hres Hsw Hls Hlz Hac E).
+    rewrite (close_txn_refines st inj [] fires lg Hnd Hrefs Hres Hsw Hdem Hls Hlz Hac E).
     cbn [ebind r_state r_obs]. rewrite E2. reflexivity.
 Qed.
 Print Assumptions net_history_refines.
@@ -898,10 +1085,10 @@ Corollary net_history_refines_no_switch : forall txns st, static_ok st -> no_swi
   exists os, net_history st txns = Some os /\ spec_history st txns = EV os.
 Proof.
   intros txns st Hok Hns Hac. apply net_history_refines; [exact Hok|].
-  apply (history_all_inv wired_ok (fun s => no_switch s = true /\ wired_ok s)).
-  - intros s [_ H]; exact H.
-  - intros s inj fires lg [Hn Hw] _. split; [exact Hn | apply wired_ok_commit_no_switch; auto].
-  - split; [exact Hns|]. split; [apply no_switch_targets; exact Hns | exact Hac].
+  apply (history_all_inv wired_ok (fun s => no_switch s = true /\ acyclic s)).
+  - intros s inj [Hn H]. apply wired_ok_no_switch; auto.
+  - intros s inj fires lg [Hn Hw] _. split; [exact Hn | apply acyclic_commit_no_switch; auto].
+  - split; [exact Hns | exact Hac].
 Qed.
 Print Assumptions net_history_refines_no_switch.
 
@@ -909,7 +1096,7 @@ Print Assumptions net_history_refines_no_switch.
 Definition of_opt {A} (o : option A) : ev A := match o with Some a => EV a | None => EErr Illegal end.
 
 (* W holds of every state in which a deferred transaction is run (for these scheduling choices) *)
-Fixpoint deferred_all (W : state -> Prop) (fuel : nat) (choice : list nat) (st : state) (q : list ditem) : Prop :=
+Fixpoint deferred_all (W : state -> list (nat * val) -> Prop) (fuel : nat) (choice : list nat) (st : state) (q : list ditem) : Prop :=
   match fuel with
   | O => True
   | S f =>
@@ -921,7 +1108,7 @@ Fixpoint deferred_all (W : state -> Prop) (fuel : nat) (choice : list nat) (st :
       let q' := remove_first (source_of d) q in
       match d with
       | DEvent h v =>
-        W st /\ match net_txn st [(h, v)] with
+        W st [(h, v)] /\ match net_txn st [(h, v)] with
                 | Some (fires, _) => deferred_all W f (tl choice) (net_commit st fires) (q' ++ net_deferred st fires)
                 | None => True
                 end
@@ -931,9 +1118,9 @@ Fixpoint deferred_all (W : state -> Prop) (fuel : nat) (choice : list nat) (st :
   end.
 
 (* ... and of the state in which the transaction of the sends is run *)
-Definition outer_all (W : state -> Prop) (choice : list nat) (st : state) (inj : list (nat * val))
+Definition outer_all (W : state -> list (nat * val) -> Prop) (choice : list nat) (st : state) (inj : list (nat * val))
            (ps : list (nat * list nat)) : Prop :=
-  W st /\ match net_txn st inj with
+  W st inj /\ match net_txn st inj with
           | Some (fires, _) =>
             deferred_all W 200 choice (net_commit st fires)
                          (net_deferred st fires ++ map (fun p => DPost (fst p) (snd p)) ps)
@@ -941,7 +1128,7 @@ Definition outer_all (W : state -> Prop) (choice : list nat) (st : state) (inj :
           end.
 Definition outer_ok (choice : list nat) (st : state) : Prop := outer_all wired_ok choice st (sends st) (posts st).
 
-Lemma deferred_all_impl (W W' : state -> Prop) : (forall st, W st -> W' st) ->
+Lemma deferred_all_impl (W W' : state -> list (nat * val) -> Prop) : (forall st inj, W st inj -> W' st inj) ->
   forall fuel choice st q, deferred_all W fuel choice st q -> deferred_all W' fuel choice st q.
 Proof.
   intros Imp. induction fuel as [|f IH]; intros choice st q H; [exact Logic.I|].
@@ -952,8 +1139,8 @@ Proof.
   - apply IH; exact H.
 Qed.
 
-Lemma deferred_all_inv (W P : state -> Prop) :
-  (forall st, P st -> W st) ->
+Lemma deferred_all_inv (W : state -> list (nat * val) -> Prop) (P : state -> Prop) :
+  (forall st inj, P st -> W st inj) ->
   (forall st inj fires lg, P st -> net_txn st inj = Some (fires, lg) -> P (net_commit st fires)) ->
   forall fuel choice st q, P st -> deferred_all W fuel choice st q.
 Proof.
@@ -965,15 +1152,15 @@ Proof.
   - apply IH; exact Hp.
 Qed.
 
-Lemma outer_all_impl (W W' : state -> Prop) : (forall st, W st -> W' st) ->
+Lemma outer_all_impl (W W' : state -> list (nat * val) -> Prop) : (forall st inj, W st inj -> W' st inj) ->
   forall choice st inj ps, outer_all W choice st inj ps -> outer_all W' choice st inj ps.
 Proof.
   intros Imp choice st inj ps [Hw H]. split; [apply Imp; exact Hw|].
   destruct (net_txn st inj) as [[fires lg]|]; [|exact Logic.I]. eapply deferred_all_impl; eauto.
 Qed.
 
-Lemma outer_all_inv (W P : state -> Prop) :
-  (forall st, P st -> W st) ->
+Lemma outer_all_inv (W : state -> list (nat * val) -> Prop) (P : state -> Prop) :
+  (forall st inj, P st -> W st inj) ->
   (forall st inj fires lg, P st -> net_txn st inj = Some (fires, lg) -> P (net_commit st fires)) ->
   forall choice st inj ps, P st -> outer_all W choice st inj ps.
 Proof.
@@ -1035,11 +1222,11 @@ Proof.
   rewrite <- Hh in Hin at 2. apply heads_incl in Hin.
   destruct (nth _ (d0 :: hs0) (DPost 0 [])) as [h v|kk cs] eqn:Ed.
   - (* a deferred event *)
-    destruct Hd as [[Hsw Hac] Hd].
-    pose proof Hok as (Hfrag & Hnd & Hrefs & Hres & Hls & Hlz).
-    destruct (net_txn_refines st [(h, v)] Hfrag Hnd Hrefs Hres Hsw Hac) as (fires & lg & E & _).
+    destruct Hd as [(Hsw & Hdem & Hac) Hd].
+    pose proof Hok as (Hnd & Hrefs & Hres & Hls & Hlz).
+    destruct (net_txn_refines st [(h, v)] Hnd Hrefs Hres Hsw Hdem Hac) as (fires & lg & E & _).
     rewrite E in Hd |- *.
-    rewrite (close_txn_refines st [(h, v)] [] fires lg Hfrag Hnd Hrefs Hres Hsw Hls Hlz Hac E).
+    rewrite (close_txn_refines st [(h, v)] [] fires lg Hnd Hrefs Hres Hsw Hdem Hls Hlz Hac E).
     cbn [ebind r_state r_obs r_deferred map]. rewrite app_nil_r.
     rewrite (IH (tl choice) (net_commit st fires) _ _ (static_ok_commit st fires Hok)); [| |exact Hd].
     + destruct (net_run_deferred f (tl choice) (net_commit st fires) _ _) as [rest|]; reflexivity.
@@ -1047,9 +1234,9 @@ Proof.
       * apply remove_first_incl in Hk. exact (Hq k cs Hk).
       * exfalso. exact (net_deferred_events st fires k cs Hk).
   - (* a post closure: samples its cells *)
-    destruct Hok as (Hfrag & Hnd & Hrefs & Hres & Hls & Hlz).
+    destruct Hok as (Hnd & Hrefs & Hres & Hls & Hlz).
     rewrite (emap_cur st Hres cs (Hq kk cs Hin)). cbn [ebind].
-    rewrite (IH (tl choice) st _ _ (conj Hfrag (conj Hnd (conj Hrefs (conj Hres (conj Hls Hlz)))))); [| |exact Hd].
+    rewrite (IH (tl choice) st _ _ (conj Hnd (conj Hrefs (conj Hres (conj Hls Hlz))))); [| |exact Hd].
     + destruct (net_run_deferred f (tl choice) st _ _) as [rest|]; reflexivity.
     + intros k cs' Hk. apply remove_first_incl in Hk. exact (Hq k cs' Hk).
 Qed.
@@ -1074,11 +1261,11 @@ Theorem net_end_outer_with_refines choice st inj ps :
   static_ok st -> posts_ok st ps = true -> outer_all wired_ok choice st inj ps ->
   spec_end_outer_with choice st inj ps = of_opt (net_end_outer_with choice st inj ps).
 Proof.
-  intros Hok Hps [[Hsw Hac] Hd].
-  pose proof Hok as (Hfrag & Hnd & Hrefs & Hres & Hls & Hlz).
-  destruct (net_txn_refines st inj Hfrag Hnd Hrefs Hres Hsw Hac) as (fires & lg & E & _).
+  intros Hok Hps [(Hsw & Hdem & Hac) Hd].
+  pose proof Hok as (Hnd & Hrefs & Hres & Hls & Hlz).
+  destruct (net_txn_refines st inj Hnd Hrefs Hres Hsw Hdem Hac) as (fires & lg & E & _).
   unfold spec_end_outer_with, net_end_outer_with. rewrite E in Hd |- *.
-  rewrite (close_txn_refines st inj ps fires lg Hfrag Hnd Hrefs Hres Hsw Hls Hlz Hac E).
+  rewrite (close_txn_refines st inj ps fires lg Hnd Hrefs Hres Hsw Hdem Hls Hlz Hac E).
   cbn [ebind r_state r_obs r_deferred].
   apply net_run_deferred_refines; [apply static_ok_commit; exact Hok | | exact Hd].
   intros k cs Hk. apply in_app_or in Hk as [Hk|Hk].
@@ -1102,7 +1289,7 @@ Proof.
 Qed.
 
 (* histories of outermost transactions *)
-Fixpoint outer_history_all (W : state -> Prop) (st : state) (txns : list otxn) : Prop :=
+Fixpoint outer_history_all (W : state -> list (nat * val) -> Prop) (st : state) (txns : list otxn) : Prop :=
   match txns with
   | [] => True
   | (inj, ps, ch) :: rest =>
@@ -1114,7 +1301,7 @@ Fixpoint outer_history_all (W : state -> Prop) (st : state) (txns : list otxn) :
   end.
 Definition outer_history_ok : state -> list otxn -> Prop := outer_history_all wired_ok.
 
-Lemma outer_history_all_impl (W W' : state -> Prop) : (forall st, W st -> W' st) ->
+Lemma outer_history_all_impl (W W' : state -> list (nat * val) -> Prop) : (forall st inj, W st inj -> W' st inj) ->
   forall txns st, outer_history_all W st txns -> outer_history_all W' st txns.
 Proof.
   intros Imp. induction txns as [|[[inj ps] ch] rest IH]; intros st H; [exact Logic.I|].
@@ -1142,17 +1329,17 @@ Corollary net_end_outer_refines_no_switch choice st :
   end_outer choice st = of_opt (net_end_outer choice st).
 Proof.
   intros Hok Hps Hns Hac. apply net_end_outer_refines; [exact Hok | exact Hps |].
-  apply (outer_all_inv wired_ok (fun s => no_switch s = true /\ wired_ok s)).
-  - intros s [_ H]; exact H.
-  - intros s inj fires lg [Hn Hw] _. split; [exact Hn | apply wired_ok_commit_no_switch; auto].
-  - split; [exact Hns|]. split; [apply no_switch_targets; exact Hns | exact Hac].
+  apply (outer_all_inv wired_ok (fun s => no_switch s = true /\ acyclic s)).
+  - intros s inj [Hn H]. apply wired_ok_no_switch; auto.
+  - intros s inj fires lg [Hn Hw] _. split; [exact Hn | apply acyclic_commit_no_switch; auto].
+  - split; [exact Hns | exact Hac].
 Qed.
 Print Assumptions net_end_outer_refines_no_switch.
 
 (* the same with an invariant of the commits in place of the run-dependent predicates: every history,
    every list of scheduling choices *)
 Corollary net_history_refines_inv (P : state -> Prop) :
-  (forall st, P st -> wired_ok st) ->
+  (forall st inj, P st -> wired_ok st inj) ->
   (forall st inj fires lg, P st -> net_txn st inj = Some (fires, lg) -> P (net_commit st fires)) ->
   forall txns st, static_ok st -> P st ->
   exists os, net_history st txns = Some os /\ spec_history st txns = EV os.
@@ -1163,7 +1350,7 @@ Qed.
 Print Assumptions net_history_refines_inv.
 
 Corollary net_end_outer_refines_inv (P : state -> Prop) :
-  (forall st, P st -> wired_ok st) ->
+  (forall st inj, P st -> wired_ok st inj) ->
   (forall st inj fires lg, P st -> net_txn st inj = Some (fires, lg) -> P (net_commit st fires)) ->
   forall choice st, static_ok st -> posts_ok st (posts st) = true -> P st ->
   end_outer choice st = of_opt (net_end_outer choice st).
@@ -1182,7 +1369,12 @@ Print Assumptions net_end_outer_refines_inv.
    cell 22 (initially stream 1); 23 = switch_s of 22: it is RE-WIRED between 1 and 2 by the transactions
    below; 24 = defer of the switch's output; 25 maps the sink to a two-element list, 26 = its split;
    27 = value() of the hold 4 and 30 = value() of the constant 6, both created in the first transaction
-   (fresh); 28 merges the deferred streams and is held in 29 (a cell changed by deferred transactions) *)
+   (fresh); 28 merges the deferred streams and is held in 29 (a cell changed by deferred transactions);
+   31 maps the sink 0 to a reference to the CELL 6 (even values) or the CELL 36 (odd values), held in the
+   cell of cells 32 (initially cell 6); 33 = switch_c of 32, 34 its updates (listener 11); the candidate
+   cell 36 holds 35 = the coalescing sink 19 plus 100.  In the first transaction the switch_c switches to
+   cell 36 WHILE cell 36 is updated: the node 33, reached through 31 and 32 before anybody visited 35 and
+   36, demands 36 from inside its update and fires 36's update of this very transaction *)
 Definition ex_defs : list (nat * def) :=
   [ (0, DSink None); (1, DMap 0 (FAdd 1)); (2, DMap 0 (FMul 2)); (3, DMerge 1 2 GAdd);
     (4, DHold 3); (5, DSnapshot 0 [4] (NF2 GPair)); (6, DConst); (7, DLift [4; 6] (NF2 GAdd));
@@ -1191,45 +1383,61 @@ Definition ex_defs : list (nat * def) :=
     (17, DMapC 7 (FMul 3)); (18, DNever); (19, DSink (Some GAdd)); (20, DMerge 3 19 GMul10);
     (21, DMap 0 (FSel [1; 2])); (22, DHold 21); (23, DSwitchS 22); (24, DDefer 23);
     (25, DMap 0 (FToList 2)); (26, DSplit 25); (27, DValue 4); (28, DMerge 24 26 GAdd); (29, DHold 28);
-    (30, DValue 6) ].
+    (30, DValue 6);
+    (31, DMap 0 (FSel [6; 36])); (32, DHold 31); (33, DSwitchC 32); (34, DUpdates 33);
+    (35, DMap 19 (FAdd 100)); (36, DHold 35) ].
 Definition ex_st : state :=
   mkState ex_defs
           [(4, VInt 0); (6, VInt 10); (7, VInt 10); (9, VUnit); (10, VInt 10); (17, VInt 30);
-           (22, VRef 1); (29, VUnit)] [] [] [] [27; 30]
+           (22, VRef 1); (29, VUnit); (32, VRef 6); (33, VInt 10); (36, VInt 0)] [] [] [] [27; 30]
           [(8, 5); (10, 7)]
-          [(0, 3); (1, 5); (2, 11); (3, 12); (4, 20); (5, 23); (6, 24); (7, 26); (8, 27); (9, 28); (10, 30)]
+          [(0, 3); (1, 5); (2, 11); (3, 12); (4, 20); (5, 23); (6, 24); (7, 26); (8, 27); (9, 28); (10, 30);
+           (11, 34)]
           0 [] [] [] [].
 Definition ex_inj : list (nat * val) := [(19, VInt 100); (0, VInt 5); (19, VInt 1)].
-(* one rank for both wirings of the switch: above streams 1 and 2 and above the outer cell 22 *)
+(* one rank for all the wirings of the switches: 23 above streams 1 and 2 and above the outer cell 22;
+   33 above the candidate cells 6 and 36 and above the outer cell 32 *)
 Definition ex_rank (n : nat) : nat :=
-  nth n [0; 1; 1; 2; 3; 1; 0; 4; 2; 3; 5; 6; 1; 1; 1; 3; 3; 5; 0; 0; 3; 1; 2; 3; 0; 1; 0; 4; 1; 2; 1] 0.
+  nth n [0; 1; 1; 2; 3; 1; 0; 4; 2; 3; 5; 6; 1; 1; 1; 3; 3; 5; 0; 0; 3; 1; 2; 3; 0; 1; 0; 4; 1; 2; 1;
+         1; 2; 3; 4; 1; 2] 0.
 
-Example ex_wired_ok : wired_ok ex_st.
+Example ex_wired_ok : wired_ok ex_st ex_inj.
 Proof. apply (wired_okb_ok ex_rank). vm_compute. reflexivity. Qed.
 
-Example ex_acyclic : acyclic ex_st.
-Proof. exact (proj2 ex_wired_ok). Qed.
+Example ex_acyclic : acyclic_dem ex_st ex_inj.
+Proof. exact (proj2 (proj2 ex_wired_ok)). Qed.
 
 Example ex_static_ok : static_ok ex_st.
 Proof.
-  split; [reflexivity|]. split; [apply nodupb_spec; reflexivity|].
+  split; [apply nodupb_spec; reflexivity|].
   split; [reflexivity|]. split; [reflexivity|]. split; reflexivity.
 Qed.
 
 (* the engine's run of the transaction, evaluated: final firing of every definition's node, the sparks
-   that fired (nodes 31 + 27 and 31 + 30), and the update log *)
+   that fired (nodes 37 + 27 and 37 + 30), and the update log.  The switch_c 33 fires 201, the update that
+   cell 36 receives in this very transaction (its value before the transaction is 0): the log shows 35 and
+   36 updated between 32 and 33, demanded from inside 33's update *)
 Example ex_net_txn :
-  option_map (fun r => (firstn 31 (fst r), filter (fun n => is_some (fire_of (fst r) n)) (seq 31 31), snd r))
+  option_map (fun r => (firstn 37 (fst r), filter (fun n => is_some (fire_of (fst r) n)) (seq 37 37), snd r))
              (net_txn ex_st ex_inj) =
   Some ([Some (VInt 5); Some (VInt 6); Some (VInt 10); Some (VInt 16); Some (VInt 16);
          Some (VPair (VInt 5) (VInt 0)); None; Some (VInt 26); Some (VPair (VInt 5) (VInt 0));
          Some (VPair (VInt 5) (VInt 0)); Some (VInt 26); Some (VInt 26); Some (VInt 5); Some (VInt 5);
          Some (VInt 5); Some (VInt 16); Some (VInt 16); Some (VInt 78); None; Some (VInt 101);
          Some (VInt 261); Some (VRef 2); Some (VRef 2); Some (VInt 6); None;
-         Some (VList [VInt 5; VInt 6]); None; Some (VInt 16); None; None; Some (VInt 10)],
-        [58; 61],
-        [1; 2; 3; 4; 7; 10; 11; 17; 27; 15; 16; 20; 21; 22; 23; 5; 8; 9; 12; 13; 14; 25; 30]).
+         Some (VList [VInt 5; VInt 6]); None; Some (VInt 16); None; None; Some (VInt 10);
+         Some (VRef 36); Some (VRef 36); Some (VInt 201); Some (VInt 201); Some (VInt 201); Some (VInt 201)],
+        [64; 67],
+        [1; 2; 3; 4; 7; 10; 11; 17; 27; 15; 16; 20; 21; 22; 23; 5; 8; 9; 12; 13; 14; 25; 31; 32; 35; 36; 33; 34; 30]).
 Proof. vm_compute. reflexivity. Qed.
+
+(* what the switches demand in this transaction according to the specification, and what the engine's
+   node demanded: the switch_c 33 demands cell 36 *)
+Example ex_demands :
+  map (sdem ex_st ex_inj) [23; 33] = [[]; [36]] /\
+  option_map (fun r => map (ndemanded ex_st (fst r)) [23; 33]) (net_txn ex_st ex_inj) = Some [[]; [36]] /\
+  ndem ex_st 33 = [4; 6; 7; 9; 10; 17; 22; 29; 32; 33; 36] /\ ndeps ex_st 33 = [32; 6].
+Proof. vm_compute. repeat split. Qed.
 
 (* the theorem applies to it ... *)
 Example ex_refines :
@@ -1242,13 +1450,13 @@ Example ex_refines :
                  upd ex_st ex_inj (F ex_st) c = EV (fire_of fires c)) /\
     updates_once_after_deps ex_st fires lg.
 Proof.
-  destruct ex_static_ok as (A & B & C & D & _ & _). destruct ex_wired_ok as (E & G).
-  exact (net_txn_refines ex_st ex_inj A B C D E G).
+  destruct ex_static_ok as (B & C & D & _ & _). destruct ex_wired_ok as (E & G & H).
+  exact (net_txn_refines ex_st ex_inj B C D E G H).
 Qed.
 
 (* ... the specification evaluated on the same transaction gives the same values (23, the switch, fires
    stream 1's value 6; 27, the value() of the updated hold, fires the update 16; 30, the value() of the
-   constant, fires its current value 10) ... *)
+   constant, fires its current value 10; 33, the switch_c, fires the new inner cell's update 201) ... *)
 Example ex_spec_eval :
   map (fun kd : nat * def => if is_cell (snd kd) then upd ex_st ex_inj (F ex_st) (fst kd)
                              else occ ex_st ex_inj (F ex_st) (fst kd)) ex_defs =
@@ -1258,96 +1466,114 @@ Example ex_spec_eval :
        Some (VPair (VInt 5) (VInt 0)); Some (VInt 26); Some (VInt 26); Some (VInt 5); Some (VInt 5);
        Some (VInt 5); Some (VInt 16); Some (VInt 16); Some (VInt 78); None; Some (VInt 101);
        Some (VInt 261); Some (VRef 2); Some (VRef 2); Some (VInt 6); None;
-       Some (VList [VInt 5; VInt 6]); None; Some (VInt 16); None; None; Some (VInt 10)].
+       Some (VList [VInt 5; VInt 6]); None; Some (VInt 16); None; None; Some (VInt 10);
+       Some (VRef 36); Some (VRef 36); Some (VInt 201); Some (VInt 201); Some (VInt 201); Some (VInt 201)].
 Proof. vm_compute. reflexivity. Qed.
 
 (* ... another registration order of the dependents and another order of the sources: same firings *)
 Definition rev_dependents (gr : graph val) : graph val :=
-  map (fun x => {| deps := deps x; dependents := rev (dependents x); visited := visited x; done := done x;
+  map (fun x => {| deps := deps x; dem := dem x; dependents := rev (dependents x); visited := visited x; done := done x;
                    changed := changed x; fire := fire x |}) gr.
 Example ex_other_order :
   option_map fst (net_run ex_st (rev_dependents (compile ex_st)) (rev (net_sources ex_st ex_inj))) =
   option_map fst (net_txn ex_st ex_inj) /\
   option_map snd (net_run ex_st (rev_dependents (compile ex_st)) (rev (net_sources ex_st ex_inj))) =
-  Some [30; 1; 2; 3; 4; 27; 20; 25; 21; 22; 23; 14; 13; 12; 5; 8; 9; 16; 15; 7; 17; 10; 11].
+  Some [30; 1; 2; 3; 4; 27; 35; 36; 20; 31; 32; 33; 34; 25; 21; 22; 23; 14; 13; 12; 5; 8; 9; 16; 15; 7; 17; 10; 11].
 Proof. vm_compute. split; reflexivity. Qed.
 
-(* ... a history of four transactions.  The first (send 5) makes the outer cell 22 refer to stream 2, the
+(* ... a history of six transactions.  The first (send 5) makes the outer cell 22 refer to stream 2, the
    second (send 6) back to stream 1: listener 5 (of the switch 23) gets 5 + 1 from stream 1, then 6 * 2
-   from stream 2, then 8 + 1 from stream 1 *)
+   from stream 2, then 8 + 1 from stream 1.  Listener 11 (of the updates of the switch_c 33) gets: 201 (the
+   switch to cell 36 in the transaction that updates 36), 10 (the switch back to the constant cell 6), 10
+   (the outer cell fires a reference to cell 6 again), 102 (the switch to cell 36, not updated in that
+   transaction: its current value), 104 (no switch: the current inner cell 36 is updated, forwarded) *)
 Definition ex_txns : list (list (nat * val)) :=
-  [ex_inj; [(0, VInt 6)]; []; [(0, VInt 7); (19, VInt 2); (0, VInt 8)]].
+  [ex_inj; [(0, VInt 6)]; []; [(0, VInt 7); (19, VInt 2); (0, VInt 8)]; [(0, VInt 7)]; [(19, VInt 4)]].
 
 (* the wiring invariant along the history, checked by evaluation with the one rank *)
 Example ex_history_ok : history_ok ex_st ex_txns.
 Proof.
-  apply (history_all_impl (fun st => wired_okb ex_rank st = true) wired_ok (wired_okb_ok ex_rank)).
+  apply (history_all_impl (fun st inj => wired_okb ex_rank st inj = true) wired_ok (wired_okb_ok ex_rank)).
   vm_compute. repeat split.
 Qed.
 
 Example ex_history :
   net_history ex_st ex_txns =
-  Some [[BCall 10 (VInt 10); BCall 8 (VInt 16); BCall 5 (VInt 6); BCall 4 (VInt 261); BCall 3 (VInt 5);
-         BCall 2 (VInt 26); BCall 1 (VPair (VInt 5) (VInt 0)); BCall 0 (VInt 16)];
-        [BCall 8 (VInt 19); BCall 5 (VInt 12); BCall 4 (VInt 19); BCall 2 (VInt 29);
+  Some [[BCall 11 (VInt 201); BCall 10 (VInt 10); BCall 8 (VInt 16); BCall 5 (VInt 6); BCall 4 (VInt 261);
+         BCall 3 (VInt 5); BCall 2 (VInt 26); BCall 1 (VPair (VInt 5) (VInt 0)); BCall 0 (VInt 16)];
+        [BCall 11 (VInt 10); BCall 8 (VInt 19); BCall 5 (VInt 12); BCall 4 (VInt 19); BCall 2 (VInt 29);
          BCall 1 (VPair (VInt 6) (VInt 16)); BCall 0 (VInt 19)];
         [];
-        [BCall 8 (VInt 25); BCall 5 (VInt 9); BCall 4 (VInt 252); BCall 2 (VInt 35);
-         BCall 1 (VPair (VInt 8) (VInt 19)); BCall 0 (VInt 25)]] /\
+        [BCall 11 (VInt 10); BCall 8 (VInt 25); BCall 5 (VInt 9); BCall 4 (VInt 252); BCall 2 (VInt 35);
+         BCall 1 (VPair (VInt 8) (VInt 19)); BCall 0 (VInt 25)];
+        [BCall 11 (VInt 102); BCall 8 (VInt 22); BCall 5 (VInt 8); BCall 4 (VInt 22); BCall 2 (VInt 32);
+         BCall 1 (VPair (VInt 7) (VInt 25)); BCall 0 (VInt 22)];
+        [BCall 11 (VInt 104); BCall 4 (VInt 4)]] /\
   spec_history ex_st ex_txns =
-  EV   [[BCall 10 (VInt 10); BCall 8 (VInt 16); BCall 5 (VInt 6); BCall 4 (VInt 261); BCall 3 (VInt 5);
-         BCall 2 (VInt 26); BCall 1 (VPair (VInt 5) (VInt 0)); BCall 0 (VInt 16)];
-        [BCall 8 (VInt 19); BCall 5 (VInt 12); BCall 4 (VInt 19); BCall 2 (VInt 29);
+  EV   [[BCall 11 (VInt 201); BCall 10 (VInt 10); BCall 8 (VInt 16); BCall 5 (VInt 6); BCall 4 (VInt 261);
+         BCall 3 (VInt 5); BCall 2 (VInt 26); BCall 1 (VPair (VInt 5) (VInt 0)); BCall 0 (VInt 16)];
+        [BCall 11 (VInt 10); BCall 8 (VInt 19); BCall 5 (VInt 12); BCall 4 (VInt 19); BCall 2 (VInt 29);
          BCall 1 (VPair (VInt 6) (VInt 16)); BCall 0 (VInt 19)];
         [];
-        [BCall 8 (VInt 25); BCall 5 (VInt 9); BCall 4 (VInt 252); BCall 2 (VInt 35);
-         BCall 1 (VPair (VInt 8) (VInt 19)); BCall 0 (VInt 25)]].
+        [BCall 11 (VInt 10); BCall 8 (VInt 25); BCall 5 (VInt 9); BCall 4 (VInt 252); BCall 2 (VInt 35);
+         BCall 1 (VPair (VInt 8) (VInt 19)); BCall 0 (VInt 25)];
+        [BCall 11 (VInt 102); BCall 8 (VInt 22); BCall 5 (VInt 8); BCall 4 (VInt 22); BCall 2 (VInt 32);
+         BCall 1 (VPair (VInt 7) (VInt 25)); BCall 0 (VInt 22)];
+        [BCall 11 (VInt 104); BCall 4 (VInt 4)]].
 Proof. vm_compute. split; reflexivity. Qed.
 
-(* the switch was re-wired: its dependencies in the four states of the history *)
+(* the switches were re-wired: the dependencies of the switch_s 23 and of the switch_c 33 in the first
+   three states of the history *)
 Example ex_rewired :
   match net_txn ex_st ex_inj with
   | Some (f1, _) =>
     let st1 := net_commit ex_st f1 in
     match net_txn st1 [(0, VInt 6)] with
-    | Some (f2, _) => (ndeps ex_st 23, ndeps st1 23, ndeps (net_commit st1 f2) 23)
-    | None => ([], [], [])
+    | Some (f2, _) => (ndeps ex_st 23, ndeps st1 23, ndeps (net_commit st1 f2) 23,
+                       (ndeps ex_st 33, ndeps st1 33, ndeps (net_commit st1 f2) 33))
+    | None => ([], [], [], ([], [], []))
     end
-  | None => ([], [], [])
-  end = ([1; 22], [2; 22], [1; 22]).
+  | None => ([], [], [], ([], [], []))
+  end = ([1; 22], [2; 22], [1; 22], ([32; 6], [32; 36], [32; 6])).
 Proof. vm_compute. reflexivity. Qed.
 
 Example ex_history_thm :
   exists os, net_history ex_st ex_txns = Some os /\ spec_history ex_st ex_txns = EV os.
 Proof. exact (net_history_refines ex_txns ex_st ex_static_ok ex_history_ok). Qed.
 
-(* ... and a history of four OUTERMOST transactions with their deferred queues (defer 24 of the switch,
-   split 26 of the two-element lists), user post closures 7 and 8, and scheduling choices *)
+(* ... and a history of six OUTERMOST transactions with their deferred queues (defer 24 of the switch,
+   split 26 of the two-element lists), user post closures 7, 8 and 9, and scheduling choices *)
 Definition ex_otxns : list otxn :=
   [ (ex_inj, [(7, [4; 22])], [0]); ([(0, VInt 6)], [], [1; 1; 0]); ([], [(8, [29])], []);
-    ([(0, VInt 7); (19, VInt 2); (0, VInt 8)], [], [2; 0; 1]) ].
+    ([(0, VInt 7); (19, VInt 2); (0, VInt 8)], [], [2; 0; 1]); ([(0, VInt 7)], [(9, [33; 32])], [0]);
+    ([(19, VInt 4)], [], []) ].
 
 Example ex_outer_history_ok : outer_history_ok ex_st ex_otxns.
 Proof.
-  apply (outer_history_all_impl (fun st => wired_okb ex_rank st = true) wired_ok (wired_okb_ok ex_rank)).
+  apply (outer_history_all_impl (fun st inj => wired_okb ex_rank st inj = true) wired_ok (wired_okb_ok ex_rank)).
   vm_compute. repeat split.
 Qed.
 
 Example ex_outer_history :
   net_outer_history ex_st ex_otxns =
-  Some [[BCall 10 (VInt 10); BCall 8 (VInt 16); BCall 5 (VInt 6); BCall 4 (VInt 261); BCall 3 (VInt 5);
-         BCall 2 (VInt 26); BCall 1 (VPair (VInt 5) (VInt 0)); BCall 0 (VInt 16);
+  Some [[BCall 11 (VInt 201); BCall 10 (VInt 10); BCall 8 (VInt 16); BCall 5 (VInt 6); BCall 4 (VInt 261);
+         BCall 3 (VInt 5); BCall 2 (VInt 26); BCall 1 (VPair (VInt 5) (VInt 0)); BCall 0 (VInt 16);
          BCall 9 (VInt 5); BCall 7 (VInt 5); BCall 9 (VInt 6); BCall 7 (VInt 6); BCall 9 (VInt 6);
          BCall 6 (VInt 6); BPost 7 [VInt 16; VRef 2]];
-        [BCall 8 (VInt 19); BCall 5 (VInt 12); BCall 4 (VInt 19); BCall 2 (VInt 29);
+        [BCall 11 (VInt 10); BCall 8 (VInt 19); BCall 5 (VInt 12); BCall 4 (VInt 19); BCall 2 (VInt 29);
          BCall 1 (VPair (VInt 6) (VInt 16)); BCall 0 (VInt 19);
          BCall 9 (VInt 12); BCall 6 (VInt 12); BCall 9 (VInt 6); BCall 7 (VInt 6); BCall 9 (VInt 7);
          BCall 7 (VInt 7)];
         [BPost 8 [VInt 7]];
-        [BCall 8 (VInt 25); BCall 5 (VInt 9); BCall 4 (VInt 252); BCall 2 (VInt 35);
+        [BCall 11 (VInt 10); BCall 8 (VInt 25); BCall 5 (VInt 9); BCall 4 (VInt 252); BCall 2 (VInt 35);
          BCall 1 (VPair (VInt 8) (VInt 19)); BCall 0 (VInt 25);
          BCall 9 (VInt 8); BCall 7 (VInt 8); BCall 9 (VInt 9); BCall 7 (VInt 9); BCall 9 (VInt 9);
-         BCall 6 (VInt 9)]] /\
+         BCall 6 (VInt 9)];
+        [BCall 11 (VInt 102); BCall 8 (VInt 22); BCall 5 (VInt 8); BCall 4 (VInt 22); BCall 2 (VInt 32);
+         BCall 1 (VPair (VInt 7) (VInt 25)); BCall 0 (VInt 22);
+         BCall 9 (VInt 7); BCall 7 (VInt 7); BCall 9 (VInt 8); BCall 7 (VInt 8); BCall 9 (VInt 8);
+         BCall 6 (VInt 8); BPost 9 [VInt 102; VRef 36]];
+        [BCall 11 (VInt 104); BCall 4 (VInt 4)]] /\
   spec_outer_history ex_st ex_otxns = of_opt (net_outer_history ex_st ex_otxns).
 Proof. vm_compute. split; reflexivity. Qed.
 
@@ -1359,7 +1585,6 @@ Print Assumptions ex_static_ok.
 Print Assumptions ex_refines.
 Print Assumptions ex_history_thm.
 Print Assumptions ex_outer_history_thm.
-
 (* ------------------------------------------------------------------ the acyclicity hypothesis is needed *)
 (* A switch_s whose outer cell is fed, within the same transaction, by the switch's own output: outer
    cell 3 = hold (2 = map of the switch 4's output to a stream reference), 4 = switch_s 3, currently on
@@ -1383,7 +1608,7 @@ Example cy_disagree :
   Some ([Some (VInt 5); Some (VInt 6); None; None; Some (VInt 5)], [1; 4]).
 Proof.
   split.
-  { split; [reflexivity|]. split; [apply nodupb_spec; reflexivity|].
+  { split; [apply nodupb_spec; reflexivity|].
     split; [reflexivity|]. split; [reflexivity|]. split; reflexivity. }
   vm_compute. repeat split.
 Qed.
@@ -1397,3 +1622,49 @@ Proof.
   lia.
 Qed.
 Print Assumptions cy_disagree.
+
+(* ------------------------------------------------------------------ ... also through the demands *)
+(* A switch_c that switches, in the transaction of the send, to a cell fed by its own output: outer cell 2 =
+   hold (1 = map of the sink to a reference to the constant cell 5 or to the cell 6), 3 = switch_c 2,
+   currently on cell 5; cell 6 = hold (7 = map of 4 = the updates of the switch 3).  The STATIC dependencies
+   are acyclic; the demand 3 -> 6 that occurs when the sink sends an odd value closes the cycle
+   3 -> 6 -> 7 -> 4 -> 3: `acyclic_dem` fails for that send (and holds for an even one).  The specification
+   is `Illegal` on that transaction (its recursion does not terminate within the fuel); the engine, which
+   finds node 3 already visited when the demand comes back to it, fires the stale current value of cell 6
+   and loses the events of 4, 7 and 6 (visited, as demanded dependencies, before 3 fired).
+   `acyclic_dem` excludes exactly such transactions. *)
+Definition cd_defs : list (nat * def) :=
+  [ (0, DSink None); (1, DMap 0 (FSel [5; 6])); (2, DHold 1); (3, DSwitchC 2); (4, DUpdates 3);
+    (5, DConst); (6, DHold 7); (7, DMap 4 (FAdd 1)) ].
+Definition cd_st : state :=
+  mkState cd_defs [(2, VRef 5); (3, VInt 10); (5, VInt 10); (6, VInt 0)] [] [] [] [] [] [(0, 4)] 0 [] [] [] [].
+
+Example cd_cyclic_demand :
+  static_ok cd_st /\ switch_targets_ok cd_st = true /\ acyclic cd_st /\
+  demands_ok cd_st [(0, VInt 5)] = true /\ sdem cd_st [(0, VInt 5)] 3 = [6] /\
+  upd cd_st [(0, VInt 5)] (F cd_st) 3 = EErr Illegal /\
+  option_map (fun r => firstn 8 (fst r)) (net_txn cd_st [(0, VInt 5)]) =
+  Some [Some (VInt 5); Some (VRef 6); Some (VRef 6); Some (VInt 0); None; None; None; None] /\
+  wired_ok cd_st [(0, VInt 4)].
+Proof.
+  split.
+  { split; [apply nodupb_spec; reflexivity|].
+    split; [reflexivity|]. split; [reflexivity|]. split; reflexivity. }
+  split; [reflexivity|]. split.
+  { apply (acyclic_dem_acyclic cd_st [(0, VInt 4)]).
+    apply (rank_okb_acyclic _ _ (fun n => nth n [0; 1; 2; 3; 4; 0; 6; 5] 0)). vm_compute. reflexivity. }
+  split; [vm_compute; reflexivity|]. split; [vm_compute; reflexivity|]. split; [vm_compute; reflexivity|].
+  split; [vm_compute; reflexivity|].
+  apply (wired_okb_ok (fun n => nth n [0; 1; 2; 3; 4; 0; 6; 5] 0)). vm_compute. reflexivity.
+Qed.
+
+Example cd_not_acyclic_dem : ~ acyclic_dem cd_st [(0, VInt 5)].
+Proof.
+  intros [rank RK].
+  assert (A : rank 6 < rank 3) by (apply RK; vm_compute; auto).
+  assert (B : rank 7 < rank 6) by (apply RK; vm_compute; auto).
+  assert (C : rank 4 < rank 7) by (apply RK; vm_compute; auto).
+  assert (D : rank 3 < rank 4) by (apply RK; vm_compute; auto).
+  lia.
+Qed.
+Print Assumptions cd_cyclic_demand.
